@@ -277,9 +277,12 @@ type fullReader struct {
 }
 
 func (f fullReader) Read(p []byte) (n int, err error) {
-	n, err = io.ReadFull(f.Reader, p)
-	if err == io.ErrUnexpectedEOF {
-		err = io.EOF
+	// Like io.ReadFull, but keeps the reader's own error: a clean end of the entry is io.EOF,
+	// while a truncated entry (io.ErrUnexpectedEOF from the tar reader) stays an error instead of passing for a complete, shorter file.
+	for n < len(p) && err == nil {
+		var nn int
+		nn, err = f.Reader.Read(p[n:])
+		n += nn
 	}
 	return
 }
